@@ -12,7 +12,7 @@ Case shape (self-contained, JSON):
      | ["repeat", E, k] | ["power", E, k] | ["choice", [[E, [m, e]], ...], limit|null]
      | ["cond", pred, E, E] | ["until", E, n]            pred := ["lenGt", k] | ["always"] | ["never"]
   prims in the Lean model: mutUniform mutSwap selRandom selSample selTop selBottom selFirst selLast
-     recUniform recSample recKPoint recSegmented recOrder recAverage recWeightedAverage selProportional; oracle-only prims (run on the real code, property
+     recUniform recSample recKPoint recSegmented recOrder recPartiallyMapped recCycle recAverage recWeightedAverage selProportional; oracle-only prims (run on the real code, property
      oracle only, no model prediction): see ORACLE_ONLY.
 
 Recorded-oracle technique: every `random.Random` owned by an operator of the expression is replaced
@@ -29,9 +29,8 @@ from harness.common.framework import Prop
 
 MODEL_PRIMS = ['mutUniform', 'mutSwap', 'selRandom', 'selSample', 'selTop', 'selBottom', 'selFirst',
                'selLast', 'recUniform', 'recSample', 'recKPoint', 'recSegmented', 'recOrder', 'recAverage',
-               'recWeightedAverage', 'selProportional']
-ORACLE_ONLY = ['recPartiallyMapped', 'recCycle',
-               'selTopCluster', 'selBottomCluster', 'nsga2SortPipeline',
+               'recWeightedAverage', 'selProportional', 'recPartiallyMapped', 'recCycle']
+ORACLE_ONLY = ['selTopCluster', 'selBottomCluster', 'nsga2SortPipeline',
                'lambdaDrop1', 'lambdaReverse', 'forEachFlatten']
 SELECTORS = {'Random', 'Sample', 'Proportional', 'Top', 'Bottom', 'First', 'Last'}
 
@@ -219,13 +218,9 @@ class ExprGen:
     """An operation that creates new DNA."""
     r = self.rng
     k = r.weighted([(5, 'mutUniform'), (3, 'mutSwap'), (3, 'recUniform'), (2, 'recSample'),
-                    (3, 'recKPoint'), (2, 'recSegmented'), (3, 'recOrder'), (3, 'recAverage'),
-                    (2, 'recWeightedAverage')] +
-                   ([(7, 'oo')] if self.oo else []))
-    if k == 'oo':
-      k = r.choice(['recPartiallyMapped', 'recCycle'])
-      return ['seq', self.two_parents(fit), ['prim', k]]
-    if k == 'recOrder':
+                    (3, 'recKPoint'), (2, 'recSegmented'), (2, 'recOrder'), (2, 'recPartiallyMapped'),
+                    (2, 'recCycle'), (3, 'recAverage'), (2, 'recWeightedAverage')])
+    if k in ('recOrder', 'recPartiallyMapped', 'recCycle'):
       e = ['prim', k]
       return e if self.sloppy and r.chance(0.3) else ['seq', self.two_parents(fit), e]
     if k == 'recKPoint':
@@ -526,7 +521,7 @@ class C14(Prop):
       for prim in FIXED_PRIMS:
         r = rng.fork()
         pop = [{'nums': gen_dna(r, spec), 'fit': r.randint(-3, 6)} for _ in range(r.choice([2, 2, 3, 4]))]
-        if prim[1] in ('recKPoint', 'recSegmented', 'recOrder'):
+        if prim[1] in ('recKPoint', 'recSegmented', 'recOrder', 'recPartiallyMapped', 'recCycle'):
           pop = pop[:2]
         yield {'spec': spec, 'pop': pop, 'expr': prim, 'seed': r.below(1 << 30)}
 
@@ -1470,7 +1465,7 @@ FIXED_SPECS += [
                 False, False], ['float', [-1, 0], [1, 0]]]],
 ]
 FIXED_PRIMS = [['prim', 'mutUniform'], ['prim', 'mutSwap'], ['prim', 'recUniform'], ['prim', 'recSample'],
-               ['prim', 'recKPoint', 1], ['prim', 'recKPoint', 2], ['prim', 'recSegmented', [1]], ['prim', 'recOrder'],
+               ['prim', 'recKPoint', 1], ['prim', 'recKPoint', 2], ['prim', 'recSegmented', [1]], ['prim', 'recOrder'], ['prim', 'recPartiallyMapped'], ['prim', 'recCycle'],
                ['prim', 'recAverage'], ['prim', 'recWeightedAverage'], ['power', ['prim', 'recAverage'], 2],
                ['prim', 'selRandom', 2, False], ['prim', 'selRandom', 3, True], ['prim', 'selSample', 2],
                ['prim', 'selTop', 1], ['prim', 'selBottom', ['frac', 1, 1]], ['prim', 'selFirst', 1],
